@@ -37,6 +37,18 @@ type H2Script struct {
 	mu     sync.Mutex
 	Conns1 []int64
 	Conns2 []int64
+	// recorded by the peer: the stream id of the scripted request and every byte written on
+	// the connection behind the response HEADERS frame
+	StreamID uint32
+	Wire     []byte
+}
+
+// Recorded returns the stream id of the scripted request and the bytes the peer wrote on the
+// connection behind its response HEADERS frame.
+func (sc *H2Script) Recorded() (uint32, []byte) {
+	sc.mu.Lock()
+	defer sc.mu.Unlock()
+	return sc.StreamID, append([]byte(nil), sc.Wire...)
 }
 
 func (sc *H2Script) Seen() (c1, c2 []int64) {
@@ -80,9 +92,19 @@ type h2conn struct {
 	wbuf bytes.Buffer
 	enc  *hpack.Encoder
 	hbuf bytes.Buffer
+	rec  *H2Script // when set: bytes written are appended to rec.Wire
+}
+
+func (h *h2conn) record(b []byte) {
+	if h.rec != nil {
+		h.rec.mu.Lock()
+		h.rec.Wire = append(h.rec.Wire, b...)
+		h.rec.mu.Unlock()
+	}
 }
 
 func (h *h2conn) flush() error {
+	h.record(h.wbuf.Bytes())
 	_, err := h.c.Write(h.wbuf.Bytes())
 	h.wbuf.Reset()
 	return err
@@ -194,6 +216,11 @@ func (s *H2Server) play(h *h2conn, sid uint32, sc *H2Script) (end bool) {
 	fields := append([]Field{{":status", fmt.Sprint(sc.Status)}}, sc.Fields...)
 	h.writeHeaders(sid, fields, sc.HdrEnd)
 	h.flush()
+	sc.mu.Lock()
+	sc.StreamID = sid
+	sc.mu.Unlock()
+	h.rec = sc
+	defer func() { h.rec = nil }()
 	for _, a := range sc.Actions {
 		switch a.Kind {
 		case "data":
@@ -222,6 +249,7 @@ func (s *H2Server) play(h *h2conn, sid uint32, sc *H2Script) (end bool) {
 			if n > len(b)-1 {
 				n = len(b) - 1
 			}
+			h.record(b[:n])
 			h.c.Write(b[:n])
 			h.wbuf.Reset()
 			return true
